@@ -1131,6 +1131,30 @@ pub fn run(ctx: &Ctx) -> i32 {
                 }
             }
         }
+        // the content of every bracket pair deleted (`{}`, `()`, `[]` left behind), and every bracket
+        // pair deleted with its content: arm-less matches, empty bodies, empty parameter lists, ...
+        'g: for b in &bases {
+            if ctx.past(0.415) {
+                a_complete = false;
+                break 'g;
+            }
+            let mut stack: Vec<usize> = vec![];
+            for (ti, (ts, te)) in b.toks.iter().enumerate() {
+                match &b.src[*ts..*te] {
+                    "{" | "(" | "[" => stack.push(ti),
+                    "}" | ")" | "]" => {
+                        if let Some(open) = stack.pop() {
+                            if ti > open + 1 && mine(&mut k) {
+                                let (os, oe) = b.toks[open];
+                                f.prog("bracket content deleted", &b.origin, splice(&b.src, oe, *ts, " "), b.compile);
+                                f.prog("bracket group deleted", &b.origin, splice(&b.src, os, *te, " "), b.compile);
+                            }
+                        }
+                    }
+                    _ => {}
+                }
+            }
+        }
         // line-level edits: deletion, duplication, adjacent swap of every line
         'l: for b in &bases {
             if ctx.past(0.42) {
@@ -1159,7 +1183,7 @@ pub fn run(ctx: &Ctx) -> i32 {
             }
         }
         f.flush();
-        for c in ["character prefix", "token prefix", "token deletion", "token duplication", "adjacent token swap", "declared name replaced by another declared name", "line deletion", "line duplication", "adjacent line swap"] {
+        for c in ["character prefix", "token prefix", "token deletion", "token duplication", "adjacent token swap", "declared name replaced by another declared name", "bracket content deleted", "bracket group deleted", "line deletion", "line duplication", "adjacent line swap"] {
             f.st.exhaustive_classes.insert(c, a_complete);
         }
 
@@ -1208,6 +1232,12 @@ pub fn run(ctx: &Ctx) -> i32 {
                     if b.src[s2..e2] != b.src[s..e] {
                         f.prog("token substitution by a token of the program", &b.origin, splice(&b.src, s, e, &b.src[s2..e2]), b.compile);
                     }
+                }
+                // a short range of tokens deleted
+                if rng.chance(1, 3) {
+                    let i = rng.usize_below(b.toks.len());
+                    let j = (i + 1 + rng.usize_below(8)).min(b.toks.len() - 1);
+                    f.prog("token range deletion", &b.origin, splice(&b.src, b.toks[i].0, b.toks[j].1, " "), b.compile);
                 }
                 // insertion as well
                 if rng.chance(1, 3) {
